@@ -13,7 +13,10 @@ from collections.abc import Mapping, Sequence
 
 from .render import canonical_name_step
 
+import re
+
 _installed = {}
+_KEYS_TAIL = re.compile(r"\[[^\[\]'\"]+\]\[\d+\]\Z")
 
 
 class State:
@@ -108,8 +111,9 @@ def install_h2(keys_token="~"):
             return
         try:
             k = parts[-1] if parts else None
-            if path.endswith("]") and ("[%s][" % keys_token) in path[len(parent.path):]:
-                STATE.h2_skipped += 1  # keys-selector match: names are not nodes
+            tail = path[len(parent.path):]
+            if isinstance(k, str) and isinstance(obj, str) and k.endswith(obj) and _KEYS_TAIL.match(tail) and tail.startswith("[" + k[: len(k) - len(obj)] + "]"):
+                STATE.h2_skipped += 1  # keys-selector match (`[<keys token>][i]`): names are not nodes
                 return
             STATE.h2_checked += 1
             bad = None
@@ -119,6 +123,8 @@ def install_h2(keys_token="~"):
                 step = "[%d]" % k if isinstance(k, int) and not isinstance(k, bool) else canonical_name_step(k)
                 if path != parent.path + step:
                     bad = "path %r is not parent.path %r + %r" % (path, parent.path, step)
+                elif type(parent.obj) not in (dict, list):
+                    pass  # never call into caller-supplied containers (lazy mappings count their calls)
                 else:
                     try:
                         child = parent.obj[k]
